@@ -17,7 +17,7 @@ META = {
              "non-trivial = plan with >= 2 bins / a forced search that returned a plan"),
     "exhaustive": True,
     "bounds": {
-        "quick": "sweep lattice as C02 quick; force_target_nf: targets 100..400 step 10, N=2000, 4 schedulers; targets 100..400 step 2, N=60000, ltf and lpsd",
+        "quick": "sweep lattice as C02 quick (incl. the N=60000/100000 spot configurations); force_target_nf: targets 100..400 step 10, N=2000, 4 schedulers; targets 100..400 step 2, N=60000, ltf and lpsd",
         "thorough": "sweep lattice as C02 thorough; force_target_nf: targets 100..400 step 1, N in {2000, 20000, 60000}, 4 schedulers",
     },
     "assumptions": ["'no clamp active' is decided by a reference procedure written from the scheduler documentation's targets",
